@@ -18,11 +18,17 @@ FUNCS = {
     "modulo": {"zero_guard": False},
     "integer_divide": {"zero_guard": True},
 }
-EXACT_OPS = (ast.Add, ast.Sub, ast.Mult, ast.FloorDiv, ast.Mod)
+# `//` is deliberately absent: sympy's Integer.__floordiv__ goes through
+# Number.__divmod__, which subtracts one from every negative quotient - also
+# when the quotient is an exact integer (Integer(-12) // Rational(1, 6) is
+# -73).  Floor division has to floor the exact quotient (sympy.floor).
+EXACT_OPS = (ast.Add, ast.Sub, ast.Mult, ast.Mod)
 LIFTERS = {"sympy.Rational", "sympy.Integer", "sympy.sympify", "sympy.S",
            "fractions.Fraction", "Fraction", "sympy.nsimplify"}
-EXACT_WRAPPERS = {"vyxalify", "int", "sympy.Rational", "sympy.Integer",
-                  "sympy.sympify", "abs"}
+EXACT_WRAPPERS = {"vyxalify", "sympy.Rational", "sympy.Integer",
+                  "sympy.sympify", "abs", "sympy.floor", "sympy.ceiling",
+                  "list", "tuple"}
+INTEGRAL = {"sympy.floor", "sympy.ceiling"}
 FORBIDDEN = {"float", "round", "sympy.N", "sympy.Float", "sympy.nfloat",
              "math.floor", "math.ceil", "math.fmod", "divmod_float"}
 
@@ -121,19 +127,38 @@ def lifted(e):
     return False
 
 
-def exact(e):
+MODULE = None  # the elements module (set by check) for following delegation
+
+
+def exact(e, depth=0):
     """(ok, why) - the expression is built from exact operations only."""
     if isinstance(e, ast.Name):
         return True, ""
+    if isinstance(e, (ast.List, ast.Tuple)):
+        for part in e.elts:
+            ok, why = exact(part, depth)
+            if not ok:
+                return ok, why
+        return True, ""
+    if isinstance(e, ast.Subscript) and isinstance(e.slice, ast.Constant):
+        # f(...)[i]: the i-th component of what f's (num, num) arm returns
+        inner = delegate_arm(e.value, depth)
+        if inner is not None and isinstance(inner, (ast.List, ast.Tuple)) \
+                and isinstance(e.slice.value, int) \
+                and -len(inner.elts) <= e.slice.value < len(inner.elts):
+            return exact(inner.elts[e.slice.value], depth + 1)
+        return exact(e.value, depth)
+    if isinstance(e, ast.Call) and delegate_arm(e, depth) is not None:
+        return exact(delegate_arm(e, depth), depth + 1)
     if isinstance(e, ast.Constant):
         if isinstance(e.value, float):
             return False, f"float constant {e.value}"
         return True, ""
     if isinstance(e, ast.UnaryOp):
-        return exact(e.operand)
+        return exact(e.operand, depth)
     if isinstance(e, ast.IfExp):
         for part in (e.body, e.orelse):
-            ok, why = exact(part)
+            ok, why = exact(part, depth)
             if not ok:
                 return ok, why
         return True, ""
@@ -144,10 +169,14 @@ def exact(e):
                                "a float")
         elif isinstance(e.op, ast.Pow):
             return False, "`**` may leave the rationals"
+        elif isinstance(e.op, ast.FloorDiv):
+            return False, ("`//` on sympy numbers is off by one for negative "
+                           "integral quotients (Integer(-12) // Rational(1, 6)"
+                           " is -73); floor the exact quotient instead")
         elif not isinstance(e.op, EXACT_OPS):
             return False, f"operator {type(e.op).__name__}"
         for part in (e.left, e.right):
-            ok, why = exact(part)
+            ok, why = exact(part, depth)
             if not ok:
                 return ok, why
         return True, ""
@@ -155,24 +184,36 @@ def exact(e):
         d = dotted(e.func) or ast.unparse(e.func)
         if d in FORBIDDEN or d.startswith("math."):
             return False, f"{d}(...) is approximate"
+        if d == "divmod":
+            return False, ("builtin divmod on sympy numbers is off by one for "
+                           "negative integral quotients (sympy "
+                           "Number.__divmod__)")
+        if d == "int":
+            # int() truncates toward zero: exact only on a value already
+            # floored / known integral
+            a0 = e.args[0] if e.args else None
+            if isinstance(a0, ast.Call) and (dotted(a0.func) or "") in INTEGRAL:
+                return exact(a0, depth)
+            return False, ("int(...) truncates a non-integral quotient "
+                           "toward zero")
         if d == "sympy.nsimplify":
             if not any(kw.arg == "rational" and isinstance(
                     kw.value, ast.Constant) and kw.value.value is True
                     for kw in e.keywords):
-                inner_ok, _ = exact(e.args[0]) if e.args else (True, "")
+                inner_ok, _ = exact(e.args[0], depth) if e.args else (True, "")
                 has_div = any(isinstance(n, ast.BinOp) and isinstance(
                     n.op, ast.Div) for n in ast.walk(e))
                 if has_div or not inner_ok:
                     return False, ("sympy.nsimplify without rational=True "
                                    "guesses a closed form from a float")
             for a in e.args:
-                ok, why = exact(a)
+                ok, why = exact(a, depth)
                 if not ok:
                     return ok, why
             return True, ""
         if d in EXACT_WRAPPERS or d in LIFTERS:
             for a in e.args:
-                ok, why = exact(a)
+                ok, why = exact(a, depth)
                 if not ok:
                     return ok, why
             return True, ""
@@ -180,6 +221,22 @@ def exact(e):
     if isinstance(e, ast.Compare):
         return True, ""
     return False, f"expression form {type(e).__name__}"
+
+
+def delegate_arm(call, depth):
+    """`g(lhs, rhs, ...)` where g is another element function of the module
+    with a (num, num) arm: that arm (delegation keeps the arguments' kinds)."""
+    if MODULE is None or depth > 3 or not isinstance(call, ast.Call) \
+            or not isinstance(call.func, ast.Name):
+        return None
+    g = MODULE.functions.get(call.func.id)
+    if g is None:
+        return None
+    arm, _ = num_num_arm(g)
+    if arm is None:
+        return None
+    z = zero_guarded(arm)
+    return z if z is not None else arm
 
 
 def zero_guarded(e):
@@ -197,7 +254,9 @@ def zero_guarded(e):
 
 def check(chk, repo, tier):
     chk.trusted_base += ["CPython ast"]
+    global MODULE
     mod = repo.mod("elements")
+    MODULE = mod
     EF = mod.rel
     for name, spec in FUNCS.items():
         fn = mod.function(name)
@@ -258,8 +317,10 @@ def check(chk, repo, tier):
     chk.explanation = (
         "Clause-level: in the (num, num) arm of add, subtract, multiply, "
         "divide, modulo and integer_divide (extracted from the overload "
-        "tables) the result is built only from + - * // % (closed and exact "
-        "on int / sympy Rational), or `/` with an operand syntactically "
+        "tables, following delegation to another element's arm) the result is "
+        "built only from + - * % (closed and exact on int / sympy Rational), "
+        "sympy.floor of an exact quotient (not `//` or divmod: sympy's are "
+        "off by one on negative integral quotients), or `/` with an operand syntactically "
         "lifted to a sympy number, wrapped only by exact normalisers; no "
         "float(), math.*, sympy.N, and no nsimplify without rational=True "
         "over a quotient; divide and integer_divide are guarded by "
